@@ -6,7 +6,8 @@ CFG = {
     "id": "C10", "harness": "c10",
     "check_vo": "theories/Check/C10.vo", "prop_vo": "theories/Properties/C10.vo",
     "prop_file": "theories/Properties/C10.v",
-    "theory_files": ["theories/Par/Partition.v", "theories/Par/Interleave.v", "theories/Par/ParProofs.v"],
+    "theory_files": ["theories/Par/Partition.v", "theories/Par/Interleave.v", "theories/Par/ParProofs.v",
+                     "theories/Par/ParExtra.v"],
     "level_text": "Coq theorems about a model of the work partition of every *ParallelWithPoolSize entry point of "
                   "modeling.Mesh (ranges ws*i .. ws*i+ws, last worker takes the remainder), of workers as lists of atomic "
                   "steps and of executions as arbitrary interleavings of those lists: for every element count, every pool "
